@@ -11,6 +11,10 @@ CLAIMED = {
    technique="deterministic simulation: same seeded libmem histories, placement oracles after every successful operation (independent capacity model over assigned zones and their unions, strict types, normal memory, monotone moves, exact update map)",
    text="Same runs as C06; after every successful Allocate/Realloc/Commit an independent model (request sizes and zones from the public API, capacities from the generated node set) checks capacity of every assigned zone and of every union of assigned zones, strict-type confinement, normal memory in each newly assigned zone, superset-only moves, immovable reservations, Realloc never removing nodes, and that the returned update map is exactly the set of changed assignments. One genuine defect (union-of-zones oversubscription) is recorded as a known finding.",
    note="Capacity is checked for assigned zones and unions of up to 12 distinct assigned zones; strict-type confinement treats types explicitly added by a later Realloc as requested."),
+ "C10": dict(engine="cachesim", level="fault_enumeration", ref="6 (C10), 5 (E3)",
+   technique="deterministic simulation with fault injection: sampled cache histories on a simulated disk (os.* seam), crash/torn-write/short-write/error enumerated at every fs-op boundary of every save, reload-and-compare against previous/new snapshot, state-directory tampering",
+   text="For each sampled history the fs-op trace is recorded and the history is re-run once per fs-op boundary with a crash before/after it, torn writes at byte offsets 0,1,len/2,len-1,random, a short write and an error. After a crash a new cache instance must load the directory and equal (over every public getter of every pod, container and policy entry) either the previous or the interrupted snapshot; after an error the surviving instance must end with a loadable directory equal to its live state; after a clean save reload == live; the cache file may only change by rename; a symlinked / wrong-type / group- or other-writable cache file or state directory must be refused. Fault enumeration is exhaustive per sampled history over fs-op boundaries (not over all byte offsets); histories are sampled.",
+   note="Process-kill durability model (no power loss). The shim sees every os.* call and *os.File method in pkg/resmgr/cache; ctime, pending marks and cached pretty names are excluded from the comparison because the property does not list them."),
 }
 
 NOT_BUILT = {
